@@ -32,6 +32,13 @@ F = [
       mechanism='same mechanism for a one-of inside a recurrent subgraph: on re-iteration every candidate is executed eagerly as an ordinary '
                 'node of the subgraph (laziness and containment are lost)',
       witness={'C10': 'witnesses/KF-RECINNER-ONEOF.json'}),
+ dict(id='KF-CANDSHARED', family='candidate_shared', properties=RUNP + ['C19'],
+      kinds=['deadlock', 'cancel_hangs', 'bad_arg_exception_instance', 'never_node_ran', 'value_instead_of_error', 'wrong_error',
+             'unexpected_args', 'missing_execution', 'wrong_value', 'schedule_dependent_outcome', 'exception_saved'],
+      mechanism='a one-of candidate that is also consumed directly by another node: candidates are filtered out of every sub-pipeline except their '
+                'own one-of (manager.py _filter_node), so the direct consumer never becomes ready and the run hangs; when the candidate is reached '
+                'through its one-of first, its contained failure is delivered to the direct consumer',
+      witness={'C02': 'witnesses/KF-CANDSHARED.json'}),
  dict(id='KF-STORE-REC', family='rec_iterates', properties=['C19'],
       kinds=['recurrent_marker_saved', 'saved_more_than_once', 'write_once_store_failed_run', 'exception_saved', 'saved_value_not_final'],
       mechanism='_run_node saves every intermediate result (manager.py 645-649, see the TODO): the Recurrent marker of the destination and '
@@ -45,6 +52,8 @@ F = [
 for f in F:
     f['status'] = 'open'
 FIXED = [
+ 'fixed: property=C09 59cf84d hang when a switch case that is also consumed directly comes after the switch node in the launch order (witnesses/D26.json); also C02',
+ 'fixed: property=C09 dee09f8 hang when the selected switch case was already computed for another consumer (witnesses/D4.json); also C02',
  'fixed: property=C02 60096c3 hang: failure in a recurrent re-iteration consumed by a switch case inside a one-of candidate (witnesses/D25.json)',
  'fixed: property=C19 d9926cd a late duplicate request for an already executed node re-saved its result: a write-once store failed an otherwise correct run (witnesses/D24.json)',
  'fixed: property=C10 eeef9a0 a failure inside a switch case inside a one-of candidate: consumer invoked with the exception instance / hang (witnesses/D11.json); also C02 C03 C05',
